@@ -179,6 +179,41 @@ Theorem C19_revoked_provenance : forall (mac : str -> str -> str) secret evs tok
 Proof. exact revoked_provenance. Qed.
 Print Assumptions C19_revoked_provenance.
 
+(* CONCURRENT confirmations.  The provider is wrapped by SingleFlightProvider: Revoke is coalesced on
+   "Revoke/" ++ access token.  Every critical section of singleflight.Group.Do is one event of a
+   labelled transition system (a request reaches the provider layer: opens a flight and calls the IdP,
+   or joins the flight of its key and inherits its result; a flight completes), so "every interleaving"
+   is "every event list".  With nothing in flight a request is served as in the sequential model. *)
+Theorem C19_conc_alone : forall (mac : str -> str -> str) secret p st now q,
+  cs_flights st = [] -> snd (cstep mac secret p st (CReq now q)) = Some (auth_sign_out mac secret p now q).
+Proof. exact cstep_alone. Qed.
+Print Assumptions C19_conc_alone.
+
+(* "whoever is told 'signed out' has THEIR token revoked at the IdP", for every interleaving:
+   FALSE of the faithful model for Okta (the flight key is the access token, the revoked token the
+   refresh token) — finding C19-K1 ... *)
+Theorem C19_conc_refuted_okta :
+  exists secret evs s,
+    In s (cs_cleared (fst (crun toy_mac secret POkta evs))) /\
+    ~ In (revoke_token POkta s) (cs_revoked (fst (crun toy_mac secret POkta evs))).
+Proof. exact conc_refuted_okta. Qed.
+Print Assumptions C19_conc_refuted_okta.
+
+(* ... true for every provider whenever equal single-flight keys name equal IdP tokens among the
+   sessions that sign out (sessions of one grant; distinct users with distinct access tokens —
+   in particular users who merely share an EMPTY or equal refresh token) ... *)
+Theorem C19_conc_cleared_implies_revoked_partial : forall (mac : str -> str -> str) secret p U evs,
+  consistent p U -> sessions_in U evs ->
+  forall s, In s (cs_cleared (fst (crun mac secret p evs))) -> In (revoke_token p s) (cs_revoked (fst (crun mac secret p evs))).
+Proof. exact conc_cleared_implies_revoked. Qed.
+Print Assumptions C19_conc_cleared_implies_revoked_partial.
+
+(* ... and unconditionally for Google, whose revoked token is the key. *)
+Theorem C19_conc_cleared_implies_revoked_google : forall (mac : str -> str -> str) secret evs s,
+  In s (cs_cleared (fst (crun mac secret PGoogle evs))) -> In (revoke_token PGoogle s) (cs_revoked (fst (crun mac secret PGoogle evs))).
+Proof. exact conc_cleared_implies_revoked_google. Qed.
+Print Assumptions C19_conc_cleared_implies_revoked_google.
+
 (* Both services: after any authenticator history in which the user was signed out, every saved copy
    of a proxy session of the same grant is refused at its next due check (back channel reporting the
    IdP's state). *)
@@ -214,3 +249,9 @@ Theorem C19_reuse_monitor_sound : forall revoked o,
   reuse_mismatch o = false -> reuse_holds revoked o = true.
 Proof. exact reuse_monitor_sound. Qed.
 Print Assumptions C19_reuse_monitor_sound.
+
+Theorem C19_conc_model_single : forall (mac : str -> str -> str) secret p clock q bodies calls,
+  conc_model mac {| co_secret := secret; co_provider := p; co_clock := clock; co_reqs := [q]; co_bodies := bodies; co_calls := calls |}
+  = [auth_sign_out mac secret p clock q].
+Proof. exact conc_model_single. Qed.
+Print Assumptions C19_conc_model_single.
